@@ -29,8 +29,10 @@ META = {
             "PruneExact, CountsOk, ContentOk, ResMonotone (resources in effect by the ISO nearest-ancestor rule), MaxIdOk "
             "and the post-state the abstract model prescribes. The impl-shaped layer transcribes lopdf's algorithms with "
             "switches for the confirmed deviations; TLC explores every call sequence up to the depth bound from every "
-            "starting document as the code is (no violation: all eight findings of this check are repaired in lopdf) and with the "
-            "repaired defects seeded back (the violations are exactly the eight former findings). "
+            "starting document as the code is (the only violations are the listed findings), with the repaired defects seeded back "
+            "(additionally exactly the eight former findings) and with every confirmed deviation repaired (none). Page trees "
+            "with the Resources 127-201 levels above a page, indirect Kids / Count, set_object above max_id and bookmarks on "
+            "deleted pages are part of the generated inputs. "
             "Sampled behaviours (breadth-first and random simulation to depth 10) are stepped through the real lopdf API "
             "and seeded random programs of 5-40 calls on generated documents and on documents loaded from bytes saved by "
             "lopdf are recorded; Trace_Editing binds every logged call to its action, checks effect and invariants on the "
@@ -40,8 +42,10 @@ META = {
             "trailer and of objects still reachable from it; 'no operation other than an explicit deletion alters an "
             "object' is read with each call's documented write set; calls are judged only while the document is sound "
             "(no reachable dangling reference), a step that breaks this is reported once. Caller errors are outside the "
-            "domain: set_object above max_id, replacing or deleting page-tree nodes or the objects of a page's Contents "
-            "through the object-level calls. The clauses on operation sequences apply where the decoder reads the whole "
+            "domain: replacing or deleting page-tree nodes (with the objects behind their indirect Kids / Count) or the "
+            "objects of a page's Contents through the object-level calls. set_object under a number above max_id is inside "
+            "the domain (the allocators must still hand out fresh ids). Indirect objects whose whole value is a reference "
+            "(9 0 obj 8 0 R) are outside it: a reference is not one of the object types of ISO 32000-1 7.3.1. The clauses on operation sequences apply where the decoder reads the whole "
             "old content (content it reads only in part is malformed input). A Resources object shared by two pages is the "
             "edited page's own entry: adding to it is inside the write set and only grows the other page's resources. Renumbering is summarised (C10 checks the renaming itself); the byte "
             "level of save/load belongs to C01-C03 (a load that changes objects is counted as drift here). Exhaustive only "
@@ -56,7 +60,7 @@ OPS = ["NewObjectId", "AddObject", "Replace", "DeleteObject", "RemoveAnnot", "Pr
        "GetOrCreateResources", "AddXObject", "AddGraphicsState", "BuildOutline", "Save", "SaveLoad",
        "AddToPageContent", "InsertImage", "InsertFormObject"]
 # violation tags the model produces "as the code is" (the Allowed constant of the cfgs): the known findings
-MODEL_FINDINGS = []
+MODEL_FINDINGS = ["resources.shadow.deep", "fresh.aboveMax", "maxid.setObject", "counts.indirect", "delete.bookmark"]
 # ... and with the repaired defects seeded back (Editing!DevSeeded / FormerFindings): the negative control of the Judge
 FORMER_FINDINGS = ["delete.array.dup", "delete.streamdict", "delete.trailer", "resources.shadow", "contents.refToArray",
                    "content.streamBoundary", "content.sharedStream", "resources.nameCollision"]
@@ -71,10 +75,10 @@ def is_drift(t):
 def model_runs(tier):
     if tier == "quick":
         return [("MC_Editing_quick_all.cfg", 4), ("MC_Editing_quick_content.cfg", 3), ("MC_Editing_quick_res.cfg", 3),
-                ("MC_Editing_quick_obj.cfg", 3), ("MC_Editing_quick_ins.cfg", 3)]
+                ("MC_Editing_quick_obj.cfg", 3), ("MC_Editing_quick_ins.cfg", 3), ("MC_Editing_quick_audit.cfg", 2)]
     return [("MC_Editing_thorough_all.cfg", 6), ("MC_Editing_thorough_content.cfg", 4), ("MC_Editing_thorough_content2.cfg", 2),
             ("MC_Editing_thorough_res.cfg", 2), ("MC_Editing_thorough_obj.cfg", 3), ("MC_Editing_thorough_starts.cfg", 3),
-            ("MC_Editing_thorough_ins.cfg", 3), ("MC_Editing_thorough_ins4.cfg", 2)]
+            ("MC_Editing_thorough_ins.cfg", 3), ("MC_Editing_thorough_ins4.cfg", 2), ("MC_Editing_thorough_audit.cfg", 3)]
 
 
 def run_models(chk, tier):
@@ -137,7 +141,7 @@ def model_vacuity(cases):
         raise vlib.ToolError("as-the-code-is model reaches %s, expected exactly %s" % (sorted(tags["asis"]), MODEL_FINDINGS))
     if tags["repaired"]:
         raise vlib.ToolError("the model with every deviation repaired violates %s" % sorted(tags["repaired"]))
-    for m in ("asis", "seeded"):
+    for m in ("asis", "seeded", "repaired"):
         if not any(c["mode"] == m for c in cases):
             raise vlib.ToolError("vacuous: no behaviour of variant %s printed" % m)
 
@@ -255,7 +259,7 @@ def input_classes(recs):
     object deltas itself)"""
     cl = set()
     n = 0
-    objs, pages, max_id = {}, [], 0
+    objs, pages, max_id, bms = {}, [], 0, []
     for i, r in enumerate(recs):
         if r["ev"] == "Start":
             objs = {o[0]: o[1] for o in r["objects"]}
@@ -274,6 +278,14 @@ def input_classes(recs):
                 cl.add("loaded-xref-stream")
             if r.get("loaded"):
                 cl.add("loaded")
+            if r.get("levels"):
+                cl.add("resources:%d-levels-up" % r["levels"])
+            for o in r["objects"]:
+                if o[1].get("k") == "dict" and o[1]["v"].get("Type", {}).get("v") == "Pages":
+                    if o[1]["v"].get("Count", {}).get("k") == "ref":
+                        cl.add("count:indirect")
+                    if o[1]["v"].get("Kids", {}).get("k") == "ref":
+                        cl.add("kids:indirect")
             if any(o[1].get("k") == "stream" and o[1]["z"] for o in r["objects"]):
                 cl.add("compressed-stream")
             res = [objs[p]["v"].get("Resources") for p in r["pages"] if objs.get(p, {}).get("k") == "dict"]
@@ -287,6 +299,17 @@ def input_classes(recs):
             cl.add("op:" + op)
             if n >= 20:
                 cl.add("program>=20")
+            if op == "Replace" and r["c"]["id"] > max_id:
+                cl.add("replace:above-max_id")
+            if op == "DeletePages" and any(1 <= x <= len(pages) and pages[x - 1] in bms for x in r["c"]["nums"]):
+                cl.add("deletepages:bookmarked-page")
+            if op == "DeletePages":
+                hit = [pages[x - 1] for x in r["c"]["nums"] if 1 <= x <= len(pages)]
+                def anc(n, seen=()):
+                    par = objs.get(n, {}).get("v", {}).get("Parent") if objs.get(n, {}).get("k") == "dict" else None
+                    return [] if not par or par.get("k") != "ref" or par["n"] in seen else [par["n"]] + anc(par["n"], seen + (par["n"],))
+                if any(objs.get(a, {}).get("v", {}).get("Count", {}).get("k") == "ref" for p_ in hit for a in anc(p_)):
+                    cl.add("deletepages:indirect-count-above")
             if op == "Renumber":             # renumber_objects_with(start): start inside / above the numbers in use, gaps
                 ids = sorted(objs)
                 st = r["c"]["x"] or 1
@@ -340,7 +363,7 @@ def input_classes(recs):
             for sid in r["del"]:
                 objs.pop(sid, None)
         if r["ev"] in ("Start", "Call"):
-            pages, max_id = r["pages"], r["max_id"]
+            pages, max_id, bms = r["pages"], r["max_id"], r["bms"]
     return cl
 
 
@@ -522,6 +545,95 @@ def synthetic_shared():
     return [start, s1]
 
 
+def synthetic_audit():
+    """indirect Count, a bookmark on a deleted page, set_object above max_id then add_object - as an implementation
+    without the known findings logs them"""
+    objs = [[1, D(Type=N("Catalog"), Pages=R(2))], [2, D(Type=N("Pages"), Kids=A(R(3), R(4)), Count=R(5))],
+            [3, D(Type=N("Page"), Parent=R(2), Contents=R(6))], [4, D(Type=N("Page"), Parent=R(2), Contents=R(7))],
+            [5, I(2)], [6, S(B("A\n"))], [7, S(B("B\n"))]]
+    trailer = {"Root": R(1)}
+
+    def call(op, **kw):
+        c = {"op": op, "id": 0, "x": 0, "name": "", "b": [], "o": {"k": "null"}, "nums": [], "fmt": "", "ops": []}
+        c.update(kw)
+        return c
+
+    def rec(c, res, set_, del_, max_id, bms):
+        return {"ev": "Call", "prog": 0, "c": c, "res": res, "set": set_, "del": del_, "trailer": trailer, "max_id": max_id,
+                "bms": bms, "pages": [3], "pc": [[3, J("A\n")]], "po": [[3, [B("A")]]], "xn": NOXN, "er": [[3, []]]}
+
+    ok = {"ok": True, "id": 0, "ids": []}
+    start = {"ev": "Start", "prog": 0, "objects": objs, "trailer": trailer, "max_id": 7, "bms": [4], "pages": [3, 4],
+             "pc": [[3, J("A\n")], [4, J("B\n")]], "po": [[3, [B("A")]], [4, [B("B")]]], "er": [[3, []], [4, []]],
+             "content": [[3, J("A\n")], [4, J("B\n")]]}
+    s1 = rec(call("DeletePages", nums=[2]), ok, [[2, D(Type=N("Pages"), Kids=A(R(3)), Count=I(1))]], [4], 7, [0])
+    s2 = rec(call("Replace", id=8, o=I(1)), ok, [[8, I(1)]], [], 8, [0])
+    s3 = rec(call("AddObject", o=I(5)), {"ok": True, "id": 9, "ids": []}, [[9, I(5)]], [], 9, [0])
+    return [start, s1, s2, s3]
+
+
+def audit_corruptions(prog):
+    out = []
+
+    def variant(name, idx, tag, edit):
+        p = json.loads(json.dumps(prog))
+        edit(p)
+        out.append((name, idx, tag, p))
+
+    def stale_count(p):          # the indirect Count is skipped
+        p[1]["set"] = [[2, D(Type=N("Pages"), Kids=A(R(3)), Count=R(5))]]
+    variant("delete_pages leaves an indirect Count", 1, "counts.indirect", stale_count)
+
+    def stale_bookmark(p):       # the bookmark keeps the deleted page
+        for r in p[1:]:
+            r["bms"] = [4]
+    variant("delete_pages leaves a bookmark on the deleted page", 1, "delete.bookmark", stale_bookmark)
+
+    def cursor(p):               # set_object above max_id does not move the allocation cursor
+        p[2]["max_id"] = 7
+    variant("set_object above max_id leaves max_id", 2, "maxid.setObject", cursor)
+
+    def reuse(p):                # ... and the next add_object hands the number out again
+        p[2]["max_id"] = 7
+        p[3]["res"]["id"] = 8
+        p[3]["set"] = [[8, I(5)]]
+        p[3]["max_id"] = 8
+    variant("add_object reuses the number set_object stored under", 3, "fresh.aboveMax", reuse)
+    return out
+
+
+def synthetic_deep(levels=128):
+    """the only Resources stand `levels` Parent links above the page; add_xobject keeps the inherited font"""
+    mids = list(range(10, 10 + levels - 1))
+    chain = [2] + mids
+    objs = [[1, D(Type=N("Catalog"), Pages=R(2))],
+            [2, D(Type=N("Pages"), Kids=A(R(chain[1] if mids else 5)), Count=I(1), Resources=D(Font=D(F1=R(3))))],
+            [3, D(Type=N("Font"))], [4, S(B("A\n"))],
+            [5, D(Type=N("Page"), Parent=R(chain[-1]), Contents=R(4))]]
+    for i, m in enumerate(mids):
+        kid = mids[i + 1] if i + 1 < len(mids) else 5
+        objs.append([m, D(Type=N("Pages"), Parent=R(chain[i]), Kids=A(R(kid)), Count=I(1))])
+    objs.sort(key=lambda o: o[0])
+    trailer = {"Root": R(1)}
+    mx = max(o[0] for o in objs)
+    start = {"ev": "Start", "prog": 0, "objects": objs, "trailer": trailer, "max_id": mx, "bms": [], "pages": [5],
+             "pc": [[5, J("A\n")]], "po": [[5, [B("A")]]], "er": [[5, [["Font", "F1"]]]], "content": [[5, J("A\n")]]}
+    c = {"op": "AddXObject", "id": 5, "x": 4, "name": "X1", "b": [], "o": {"k": "null"}, "nums": [], "fmt": "", "ops": []}
+    own = D(Font=D(F1=R(3)), XObject=D(X1=R(4)))
+    s1 = {"ev": "Call", "prog": 0, "c": c, "res": {"ok": True, "id": 0, "ids": []},
+          "set": [[5, D(Type=N("Page"), Parent=R(chain[-1]), Contents=R(4), Resources=own)]], "del": [], "trailer": trailer,
+          "max_id": mx, "bms": [], "pages": [5], "pc": [[5, J("A\n")]], "po": [[5, [B("A")]]], "xn": NOXN,
+          "er": [[5, [["Font", "F1"], ["XObject", "X1"]]]]}
+    return [start, s1]
+
+
+def deep_corruptions(prog):
+    p = json.loads(json.dumps(prog))
+    p[1]["set"][0][1]["v"]["Resources"] = D(XObject=D(X1=R(4)))     # an empty own dictionary hides the font
+    p[1]["er"] = [[5, [["XObject", "X1"]]]]
+    return [("add_xobject hides Resources 128 levels up", 1, "resources.shadow.deep", p)]
+
+
 def shared_corruptions(prog):
     p = json.loads(json.dumps(prog))
     p[1]["set"] = [[4, S(B("Z\n"))]]          # the shared stream is rewritten in place: page 5 changes too
@@ -662,7 +774,13 @@ def negative_controls(chk, w):
     vs3 = judge_records(chk, prog3, "c11-neg-base3", 1)
     if any(v["v"] not in ("ok", "ok-drift") for v in vs3):
         raise vlib.ToolError("the hand-made conforming shared-stream program is not accepted by Trace_Editing: %s" % vs3)
-    cors = corruptions(prog) + insert_corruptions(prog2) + shared_corruptions(prog3)
+    prog4, prog5 = synthetic_audit(), synthetic_deep()
+    for name, pr in (("c11-neg-base4", prog4), ("c11-neg-base5", prog5)):
+        vsx = judge_records(chk, pr, name, 1)
+        if any(v["v"] not in ("ok", "ok-drift") for v in vsx):
+            raise vlib.ToolError("the hand-made conforming program %s is not accepted by Trace_Editing: %s" % (name, vsx))
+    cors = (corruptions(prog) + insert_corruptions(prog2) + shared_corruptions(prog3) + audit_corruptions(prog4)
+            + deep_corruptions(prog5))
     recs = []
     for _, _, _, p in cors:
         recs += p
@@ -695,8 +813,9 @@ def run(tier):
         "object generations are 0 (lopdf allocates generation 0; the projection refuses others)",
         "calls are judged while the document is sound (no reachable reference to a missing object, every content id names a "
         "stream); a step that breaks this is reported and ends the program",
-        "set_object above max_id and replacing / deleting page-tree nodes, the catalog or the objects of a page's Contents "
-        "through object-level calls are caller errors outside the domain",
+        "replacing / deleting page-tree nodes (and the objects behind their indirect Kids / Count), the catalog or the objects "
+        "of a page's Contents through object-level calls are caller errors outside the domain; indirect objects whose whole "
+        "value is a reference are not well-formed input",
         "NoStaleRef is required of the trailer and of objects still reachable from it",
         "operation sequences are what lopdf's Content::decode reads (C14 checks the decoder); the clauses on them apply where "
         "it reads the whole old content",
@@ -725,20 +844,21 @@ def run(tier):
     # (V) recorded programs
     nprog = 90 if quick else 1500
     tr = os.path.join(w, "rec.ndjson")
-    run_bin("c11", ["record", "--seed", vlib.seed(), "--n", nprog, "--out", tr])
+    ndeep = 4 if quick else 12      # programs on documents whose Resources stand 127 / 128 / 129 / 201 levels above a page
+    run_bin("c11", ["record", "--seed", vlib.seed(), "--n", nprog, "--deep", ndeep, "--out", tr])
     recs = read_ndjson(tr)
     for r in recs:
         r["src"] = "record"
-    if sum(1 for r in recs if r["ev"] == "Start") != nprog:
+    if sum(1 for r in recs if r["ev"] == "Start") != nprog + ndeep:
         raise vlib.ToolError("recorder produced too few programs")
     allrecs = rep + recs
     vs = judge_records(chk, allrecs, "c11", 6 if quick else 14)
     seen_ops = set()
     okp = triage(chk, allrecs, vs, seen_ops)
     chk.traces = okp
-    chk.extra["programs"] = len(chosen) + nprog
+    chk.extra["programs"] = len(chosen) + nprog + ndeep
     chk.extra["replayed_behaviours"] = len(chosen)
-    chk.extra["recorded_programs"] = nprog
+    chk.extra["recorded_programs"] = nprog + ndeep
     chk.extra["recorded_calls"] = sum(1 for r in recs if r["ev"] == "Call")
     # model drift on replays: the model's verdict of each step of an as-the-code-is behaviour vs lopdf's
     drift = 0
@@ -764,6 +884,9 @@ def run(tier):
     need = {"contents:ref", "contents:array", "contents:refToArray", "contents:missing", "resources:own",
             "resources:inherited-or-none", "annots", "pages>=3", "nested-tree", "loaded", "loaded-xref-stream", "compressed-stream",
             "program>=20", "resources:shared",
+            "resources:127-levels-up", "resources:128-levels-up", "resources:129-levels-up", "resources:201-levels-up",
+            "count:indirect", "kids:indirect", "replace:above-max_id", "deletepages:bookmarked-page",
+            "deletepages:indirect-count-above",
             "renumber:start-inside+gap", "renumber:start-above", "renumber:from-1+gap",
             "addgs-on:extgstate-ref", "addgs-on:extgstate-inline", "addgs-on:extgstate-absent",
             "deletepages:repeat", "deletepages:out-of-range", "deletepages:zero", "deletepages:unsorted", "deletepages:nested-tree",
